@@ -152,7 +152,7 @@ func hookCandsCases(run *Run) {
 									hc := w.HookCalls[0]
 									prefix = hc.Prefix
 									results = append(results, List{L(Str("echo:"+hc.Prefix), Str(fmt.Sprintf("%q", hc.Prefix+"-done")))})
-									if !hc.PosOk || hc.Pos != pos || hc.Filename != "main.tf" || hc.Max != max || !hc.Path.Equals(pd.Path) {
+									if !hc.PosOk || hc.Pos != pos || hc.Filename != "main.tf" || hc.Max != max || !samePath(hc.Path, pd.Path) {
 										run.Violate(Violation{Key: "C06/hook-context-wrong", Rule: "a completion hook is told the requested path, file, position and limit",
 											Func: "candidatesFromHooks", Detail: fmt.Sprintf("hook saw pos=%v file=%q max=%d path=%v", hc.Pos, hc.Filename, hc.Max, hc.Path), Replay: loc})
 									}
